@@ -100,8 +100,10 @@ def run_room(ctx, rseed, mode):
             ctx.count('mon.unlinkable_rooms')
             ctx.nontrivial(('unlinkable', rseed))
             return 'done'
-        ctx.violate('lh:linked-system-rejected', {'room_seed': rseed, 'error': str(e), 'n_bs': len(rm['ids']),
-                                                  'n_samples': len(used)}, replay=rp)
+        mech = 'lh:linked-system-rejected'
+        if len(matched) <= 5:
+            mech = 'lh:sparse-room:mirror-solution-or-unconverged'      # same known finding: too few samples for the vote
+        ctx.violate(mech, {'room_seed': rseed, 'error': str(e), 'n_bs': len(rm['ids']), 'n_samples': len(used)}, replay=rp)
         return 'done'
     except Exception as e:  # noqa
         ctx.violate('lh:pipeline-raised:%s' % type(e).__name__,
@@ -137,7 +139,7 @@ def run_room(ctx, rseed, mode):
     if bad is None and not (worst_t < 1e-3 and worst_r < 1e-3):
         bad = ('lh:pose-error-above-1mm-1mrad', {'worst_translation_m': worst_t, 'worst_rotation_rad': worst_r,
                                                   'solver_success': bool(sol.success)})
-    if bad is not None and bad[0] == 'lh:pose-error-above-1mm-1mrad' and \
+    if bad is not None and bad[0] in ('lh:pose-error-above-1mm-1mrad', 'lh:base-station-set-differs') and \
             (len(matched) <= 5 or len(cleaned) < len(matched) or not sol.success):
         # poor initial estimate (known finding): the estimator's vote between the mirror IPPE solutions had too few
         # samples (<= 5), it discarded error-free samples as outliers, or the solver reports success=False
